@@ -185,6 +185,8 @@ def r1_template(ctx, chk, rule="C11.1"):
             # sep.join(pieces): shown with two pieces, so that a separator that breaks the line is seen
             arg = t[3][0]
             el = None
+            if arg[0] == "mcall" and arg[2] == "split" and not arg[3] and not arg[4] and "\n" not in t[1][1]:
+                return "X" + t[1][1] + "X"          # the words of any text, joined by a newline-free separator: one line whatever the text was
             if arg[0] == "compr" and arg[1] in sx.loops:
                 before = hole_ok
                 el = piece_text(sx.loops[arg[1]].elt)
